@@ -110,6 +110,7 @@ fn gen_case(rng: &mut Rng, stats: &mut Stats, args: &Args) -> Case {
         arrays_in_exprs: true,
         init_reads_earlier: true,
         div_rem: false,
+        anon_inputs: false,
     };
     let mut sys = gen_sys(&mut ctx, rng, &cfg);
     let gcfg = expr_cfg(&widths, false);
